@@ -83,11 +83,10 @@ func c14Expect(l *c13LCD, src, lyc uint8) (must, may uint8) {
 		}
 	}
 	if src == 0x40 && t == 0 && ly == int(lyc) {
-		if first {
-			may |= 2
-		} else {
-			must |= 2
-		}
+		// including line 0 of the first frame after switch-on when LYC = 0: while the LCD is off nothing is
+		// compared, so the condition rises when line 0 starts (the DMG raises it too: mooneye stat_lyc_onoff).
+		// c14Run waives it when the request already came with the LCDC write itself.
+		must |= 2
 	}
 	return must, may
 }
@@ -170,6 +169,7 @@ func c14Run(cas c14Case) (sig string, err error) {
 	var ref c13LCD
 	src := c14SrcName(cas.Src)
 	cyc := 0
+	raisedAtOn := false
 	judge := func(must, may uint8, ctx string) (string, error) {
 		got := m.Mp.Read(0xff0f) & 3
 		m.Mp.Write(0xff0f, 0)
@@ -208,6 +208,10 @@ func c14Run(cas c14Case) (sig string, err error) {
 				ref.Tick()
 				cyc++
 				must, may := c14Expect(&ref, cas.Src, cas.LYC)
+				if ref.K == 1 && raisedAtOn {
+					may |= must & 2
+					must &^= 2
+				}
 				if s, e := judge(must, may, "run"); e != nil {
 					return s, e
 				}
@@ -229,6 +233,7 @@ func c14Run(cas c14Case) (sig string, err error) {
 			if ref.WriteLCDC(0x91) == "on" && (cas.Src == 0x20 || cas.Src == 0x40 && cas.LYC == 0) {
 				may = 2 // OAM / coincidence at the instant of switch-on: not asserted
 			}
+			raisedAtOn = m.Mp.Read(0xff0f)&2 != 0
 			if s, e := judge(0, may, fmt.Sprintf("op %d: LCD switched on", i)); e != nil {
 				return s, e
 			}
